@@ -101,6 +101,15 @@ var nestings = []struct{ name, pre, core, suf string }{
 	{"maps", "map(&", "a", ",a)"},
 	{"sort-bys", "sort_by(a,&", "a", ")"},
 	{"nested-wildcard-multiselects", "a[*].[", "a", "]"},
+	{"parens-in-lists", "[(", "a", ")]"},
+	{"lists-in-parens", "([", "a", "])"},
+	{"parens-in-hashes", "{k:(", "a", ")}"},
+	{"parens-in-filters", "a[?(", "a", ")]"},
+	{"lists-in-calls", "abs([", "a", "])"},
+	{"nots-of-parens", "!(", "a", ")"},
+	{"hashes-in-lists-in-parens", "([{k:", "a", "}])"},
+	{"mismatched-closers", "([", "a", ")]"},
+	{"mismatched-brace-and-bracket", "{k:[", "a", "}]"},
 	{"unclosed-parens", "(", "", ""},
 	{"unclosed-brackets", "[", "", ""},
 	{"unclosed-braces", "{a:", "", ""},
